@@ -9,7 +9,7 @@ open Std
 namespace DD
 
 theorem newMgr_eq_core (levels : List (String × Int)) :
-    newMgr levels = ((newMgrCore levels).1.map (fun _ => Res.unit), (newMgrCore levels).2) := by
+    newMgr levels = ((newMgrCore levels).1.map (fun _ => DRes.unit), (newMgrCore levels).2) := by
   unfold newMgr newMgrCore
   simp only []
   split
